@@ -1,6 +1,6 @@
 (* C20 — text forms round-trip and reject corrupted identifiers. *)
 From Coq Require Import List NArith Bool.
-From Sia Require Import Prim.Tok Text.Hex Text.Currency Text.CurrencyProofs.
+From Sia Require Import Prim.Tok Policy.Model Text.Hex Text.Currency Text.CurrencyProofs Text.PolicyText Text.PolicyTextProofs.
 Import ListNotations.
 Local Open Scope nat_scope.
 
@@ -36,3 +36,9 @@ Proof. exact cur_roundtrip. Qed.
 Theorem C20_currency_exact_roundtrip : forall c, (c <= MAXCUR)%N -> cur_parse (digits c) = POk c.
 Proof. exact exact_roundtrip. Qed.
 Print Assumptions C20_currency_exact_roundtrip.
+
+(* spend policies: the string form parses back to the same policy, for every well-formed policy (any nesting and width)
+   whose key algorithm specifiers print unquoted *)
+Theorem C20_policy_string_roundtrip : forall p s, render p = Some s -> wfp p -> parse_spend_policy s = TOk p.
+Proof. exact policy_text_roundtrip. Qed.
+Print Assumptions C20_policy_string_roundtrip.
